@@ -697,6 +697,9 @@ func c10Forced() []*c10Scenario {
 		opH("subend", 0), opH("wait_stopped", 0), opH("probe", 2), opH("stop", 1), opH("stop", 2), opH("stop", 3), opH("wait_stopped", 1), opH("wait_stopped", 2), opH("wait_stopped", 3), op("wait_run")})
 	add("shared-subscriber-close", []c10Op{{K: "add", Pub: -1, Hon: true, Sub: 2}, {K: "add", Pub: 0, Hon: false, Sub: 2}, opAdd(-1, false), op("run"), op("wait_running"), opH("probe", 1),
 		opH("stop", 0), opH("wait_stopped", 0), opH("probe", 1), op("close"), op("wait_run"), opH("wait_stopped", 1), opH("wait_stopped", 2)})
+	// Close BEFORE Run: Close releases and removes the never-started handlers, Run then starts nothing and returns nil
+	add("close-before-run", []c10Op{opAdd(0, true), opAdd(-1, true), op("close"), op("run"), op("wait_run"), op("poll_running"), opH("stopped_get", 0), op("run2"), opRH(1, false, false)})
+	add("close-before-run-waiting", []c10Op{opAdd(0, true), op("close"), op("run"), op("wait_running"), opAdd(-1, true), opRH(1, false, false), opH("started", 1), opH("stop", 1), op("wait_run")})
 	// second Run after Close / after the context was cancelled
 	add("second-run-after-close", []c10Op{opAdd(-1, true), op("run"), op("wait_running"), op("run2"), op("close"), op("wait_run"), op("run2"), op("poll_running"), op("run2")})
 	add("second-run-after-cancel", []c10Op{opAdd(0, true), op("run"), op("wait_running"), op("cancel"), op("wait_run"), op("run2"), op("run2")})
